@@ -34,8 +34,8 @@ LEAN_MODULES = {
     "C05": ["TFV.Properties.EA"],
     "C06": ["TFV.Properties.BinOps"],
     "C07": ["TFV.Properties.DE"],
-    "C08": ["TFV.Properties.Tree"],
-    "C09": ["TFV.Properties.Tree"],
+    "C08": ["TFV.Properties.Tree", "TFV.Properties.TreeCR"],
+    "C09": ["TFV.Properties.Tree", "TFV.Properties.TreeCR"],
     "C10": ["TFV.Properties.Gray"],
     "C11": ["TFV.Properties.Select"],
     "C12": ["TFV.Properties.Net"],
